@@ -40,6 +40,7 @@ type Pipe struct {
 	closeErr  error
 	closeCnt  int
 	written   []byte
+	writeLens []int
 	writes    int
 	writeGate chan struct{} // if non-nil, Write parks until it is closed
 	inWrite   int           // writes currently parked
@@ -184,6 +185,7 @@ func (p *Pipe) Write(b []byte) (int, error) {
 		}
 	}
 	p.written = append(p.written, b...)
+	p.writeLens = append(p.writeLens, len(b))
 	cb := p.onWrite
 	p.cond.Broadcast()
 	p.mu.Unlock()
@@ -313,4 +315,11 @@ func (p *Pipe) WaitMessage(from int, timeout time.Duration) ([]rc.Packet, int, e
 		}
 		p.cond.Wait()
 	}
+}
+
+// WriteLens returns the sizes of the successful Write calls so far.
+func (p *Pipe) WriteLens() []int {
+	p.mu.Lock()
+	defer p.mu.Unlock()
+	return append([]int{}, p.writeLens...)
 }
